@@ -403,7 +403,8 @@ def namespace_reader(repo, chk):
             if len(names) < 2 or names[0] != key.id or names[1] != val.id:
                 ok = False
             src = term_of(fn, u.value, {})
-            if src not in (expected_term(m, "line.strip().split(',')"), expected_term(m, "line.rstrip().split(',')"), expected_term(m, "line.rstrip('\\n').split(',')")):
+            lv = next((l.target.id for l in own_nodes(fn.node) if isinstance(l, ast.For) and isinstance(l.target, ast.Name) and any(x is u for x in ast.walk(l))), 'line')
+            if src not in (expected_term(m, f"{lv}.strip().split(',')"), expected_term(m, f"{lv}.rstrip().split(',')"), expected_term(m, f"{lv}.rstrip('\\n').split(',')")):
                 ok = False
     chk.expect(ok, 'C16.6a', 'R15', fn.site(st), ast.unparse(st), 'id_feature_map[first field] = second field of the comma-split line',
                'the map must store field 0 -> field 1 of the comma-split line for every accepted line')
